@@ -10,6 +10,8 @@ package main
 //  part B  node level (CaseS, modelled): FullScanPlan + ProjectionPlan built from the checked
 //          statement, drained in both modes on stores of 0..3B+1 pairs, B in {1,2,3,5,32};
 //          Coq side: Model/ScanProj.v (refill logic, batch boundaries) on the same input.
+//          The same with a FinalLimitPlan on top (CaseL): Model/LimitLazy.v, incl. predicates that
+//          fail on pairs the limit may or may not reach.
 //  part C  statement level (CaseS, verdict only): whole statements through BuildPlan with
 //          ORDER BY, GROUP BY + aggregates, LIMIT, narrowed scans, cache on and off.
 //
@@ -385,6 +387,11 @@ func c03Verdict(row, bat runResult, k int) string {
 // c03RunNode drains FullScanPlan + ProjectionPlan built from the checked statement (no
 // folding, no scan narrowing): exactly what Model/ScanProj.v models.
 func c03RunNode(q string, kvs [][2]string, batch bool, B int) (res runResult) {
+	return c03RunNodeLimit(q, kvs, batch, B, -1, -1)
+}
+
+// c03RunNodeLimit: the same with a FinalLimitPlan on top when start >= 0 (Model/LimitLazy.v).
+func c03RunNodeLimit(q string, kvs [][2]string, batch bool, B, start, count int) (res runResult) {
 	defer func() {
 		if r := recover(); r != nil {
 			res.Panic = fmt.Sprint(r)
@@ -406,11 +413,63 @@ func c03RunNode(q string, kvs [][2]string, batch bool, B int) (res runResult) {
 	scan := kvql.NewFullScanPlan(st, &kvql.FilterExec{Ast: sel.Where})
 	plan := &kvql.ProjectionPlan{Storage: st, ChildPlan: scan, AllFields: sel.AllFields,
 		FieldNames: sel.FieldNames, FieldTypes: sel.FieldTypes, Fields: sel.Fields}
-	if err := plan.Init(); err != nil {
+	var final kvql.FinalPlan = plan
+	if start >= 0 {
+		final = &kvql.FinalLimitPlan{Storage: st, Start: start, Count: count, FieldNames: plan.FieldNameList(),
+			FieldTypes: plan.FieldTypeList(), ChildPlan: plan}
+	}
+	if err := final.Init(); err != nil {
 		res.Err = err
 		return
 	}
-	return drainPlan(plan, batch, res)
+	return drainPlan(final, batch, res)
+}
+
+func c03LimitCase(e *emitter, fields, where string, kvs [][2]string, B, start, count int) {
+	q := "select " + fields + " where " + where
+	stmt, err := kvql.NewParser(q).Parse()
+	if err != nil {
+		e.count("rejected")
+		return
+	}
+	sel := stmt.(*kvql.SelectStmt)
+	wt, ok := coqExpr(sel.Where.Expr)
+	ft := "None"
+	if !sel.AllFields {
+		p := make([]string, len(sel.Fields))
+		for i, f := range sel.Fields {
+			var okf bool
+			p[i], okf = coqExpr(f)
+			ok = ok && okf
+		}
+		ft = "(Some " + coqList(p) + ")"
+	}
+	if !ok {
+		e.m.OutOfModel++
+		return
+	}
+	row := c03RunNodeLimit(q, kvs, false, B, start, count)
+	bat := c03RunNodeLimit(q, kvs, true, B, start, count)
+	rp := c03Replay{Kind: "node: FinalLimitPlan + ProjectionPlan + FullScanPlan from the checked statement",
+		Query: fmt.Sprintf("%s limit %d, %d", q, start, count), B: B, Pairs: kvs,
+		Plan: "FinalLimitPlan <- ProjectionPlan <- FullScanPlan", BatLens: bat.BatchLen}
+	bad := c03Verdict(row, bat, 0)
+	if bad != "" {
+		rp.What, rp.RowObs, rp.BatObs = bad, c03Outcome(row, 0), c03Outcome(bat, 0)
+	}
+	term := fmt.Sprintf("CaseL %s %s %d %d %d %s %s %s", wt, ft, B, start, count, coqPairs(kvs), coqSobs(row, 0), coqSobs(bat, 0))
+	idx := e.add(term, rp, len(kvs) > 0)
+	c03CountStmt(e, "limit-node", row, bat, B, len(kvs))
+	if row.Err == nil && bat.Err == nil && row.Panic == "" && bat.Panic == "" {
+		// would the unlimited statement fail?  then the limit stopped before the failing pair
+		un := c03RunNode(q, kvs, true, B)
+		if un.Err != nil {
+			e.count("limit-node:stops_before_a_failing_pair")
+		}
+	}
+	if bad != "" {
+		e.fail(idx, bad, "C03/node-row-vs-batch", rp)
+	}
 }
 
 func c03NodeCase(e *emitter, fields, where string, kvs [][2]string, B int) {
@@ -675,7 +734,7 @@ func runC03(c *runCtx) error {
 	}
 	nA, nU := 700, 600
 	if thorough {
-		nA, nU = 6000, 5000
+		nA, nU = 20000, 15000
 	}
 	for i := 0; i < nA; i++ {
 		t := pick(r, []gty{gStr, gInt, gFlt, gBool, gBool, gList})
@@ -693,9 +752,9 @@ func runC03(c *runCtx) error {
 
 	// ---------------- part B / C
 	Bs := []int{1, 2, 3, 5, 32}
-	perSizeB, perSizeC := 8, 3
+	perSizeB, perSizeC, perSizeL := 8, 3, 6
 	if thorough {
-		perSizeB, perSizeC = 30, 12
+		perSizeB, perSizeC, perSizeL = 100, 40, 80
 	}
 	stmtTemplates := func(wh string) [][3]string { // query, tie columns, bucket
 		return [][3]string{
@@ -720,6 +779,17 @@ func runC03(c *runCtx) error {
 			for k := 0; k < perSizeB; k++ {
 				kvs := c03MakeStore(r, n, false)
 				c03NodeCase(e, c03Fields(r, g), c03Where(r, g), kvs, B)
+			}
+			for k := 0; k < perSizeL; k++ {
+				kvs := c03MakeStore(r, n, r.chance(1, 3))
+				start := pick(r, []int{0, 0, 1, 2, B, B + 1, 2 * B})
+				count := pick(r, []int{0, 1, 2, 3, B, B + 1, 2 * B, 100})
+				wh := c03Where(r, g)
+				if r.chance(1, 3) {
+					// fails on the pairs valued 7: harmless when the limit is reached before them
+					wh = pick(r, []string{"10 / (int(value) - 7) != 0", "value between '0' and value + 'x' | 10 / (int(value) - 7) > 100", "strlen(value) < 3 & 10 / (int(value) - 7) < 100"})
+				}
+				c03LimitCase(e, c03Fields(r, g), wh, kvs, B, start, count)
 			}
 			for k := 0; k < perSizeC; k++ {
 				kvs := c03MakeStore(r, n, r.chance(1, 2))
